@@ -68,6 +68,10 @@ pub struct Step {
     pub repeat: u32,
     /// set the thread's hash key to this value before the op (fault kind `hash_rekey`)
     pub rekey: Option<u64>,
+    /// advance the process's simulated clocks by this many milliseconds before the op (fault
+    /// kind `clock_jump`; needs the LD_PRELOAD clock shim, otherwise nothing happens)
+    #[serde(default)]
+    pub clock_jump_ms: u64,
 }
 
 #[derive(Clone, Debug, Serialize, Deserialize)]
@@ -79,6 +83,13 @@ pub struct ThreadPlan {
     /// must not depend on: it changes where the thread's stack lies relative to its heap arena.
     #[serde(default)]
     pub stack_kb: u32,
+    /// operations issued from a thread-local destructor while the thread is being torn down
+    #[serde(default)]
+    pub exit_ops: Vec<u32>,
+    /// register that destructor before the thread's first library call (it then runs AFTER the
+    /// library's own thread-locals have been destroyed) instead of after its last one
+    #[serde(default)]
+    pub exit_guard_early: bool,
 }
 
 #[derive(Clone, Debug, Serialize, Deserialize)]
@@ -347,9 +358,9 @@ pub fn generate(g: &GenCtx, seed: u64) -> Scenario {
                 // valid A, poison P, valid A again: the fault lands between two uses of a slot
                 let a = intern(&mut sc, *rng.pick(&sub));
                 let p = intern(&mut sc, *rng.pick(&poison_sub));
-                steps.push(Step { op: a, repeat: 1, rekey: None });
-                steps.push(Step { op: p, repeat: 1, rekey });
-                steps.push(Step { op: a, repeat: 1, rekey: None });
+                steps.push(Step { op: a, repeat: 1, rekey: None, clock_jump_ms: 0 });
+                steps.push(Step { op: p, repeat: 1, rekey, clock_jump_ms: 0 });
+                steps.push(Step { op: a, repeat: 1, rekey: None, clock_jump_ms: 0 });
                 continue;
             }
             if siblings_on && !g.families.is_empty() && rng.pct(22) {
@@ -362,7 +373,7 @@ pub fn generate(g: &GenCtx, seed: u64) -> Scenario {
                     let members: Vec<u32> = (0..k).map(|_| intern(&mut sc, *rng.pick(f))).collect();
                     for _ in 0..rng.range(2, 12) {
                         for m in &members {
-                            steps.push(Step { op: *m, repeat: 1, rekey: None });
+                            steps.push(Step { op: *m, repeat: 1, rekey: None, clock_jump_ms: 0 });
                         }
                     }
                     continue;
@@ -378,25 +389,25 @@ pub fn generate(g: &GenCtx, seed: u64) -> Scenario {
                     }
                     for ix in run {
                         let op = intern(&mut sc, ix);
-                        steps.push(Step { op, repeat: 1, rekey: None });
+                        steps.push(Step { op, repeat: 1, rekey: None, clock_jump_ms: 0 });
                     }
                     continue;
                 }
                 let a = intern(&mut sc, *rng.pick(f));
-                steps.push(Step { op: a, repeat: 1, rekey: None });
+                steps.push(Step { op: a, repeat: 1, rekey: None, clock_jump_ms: 0 });
                 for _ in 0..rng.range(1, 3) {
                     let b = intern(&mut sc, *rng.pick(f));
-                    steps.push(Step { op: b, repeat: 1, rekey });
+                    steps.push(Step { op: b, repeat: 1, rekey, clock_jump_ms: 0 });
                 }
                 if rng.pct(60) {
-                    steps.push(Step { op: a, repeat: 1, rekey: None });
+                    steps.push(Step { op: a, repeat: 1, rekey: None, clock_jump_ms: 0 });
                 }
                 continue;
             }
             let ix = if !poison_sub.is_empty() && rng.pct(10) { *rng.pick(&poison_sub) } else { *rng.pick(&sub) };
             let op = intern(&mut sc, ix);
             let repeat = if rng.pct(6) { rng.range(2, 5) as u32 } else { 1 };
-            steps.push(Step { op, repeat, rekey });
+            steps.push(Step { op, repeat, rekey, clock_jump_ms: 0 });
         }
         let start = if t == 0 || !churn_on || crowd {
             Start::AtBegin
@@ -415,7 +426,16 @@ pub fn generate(g: &GenCtx, seed: u64) -> Scenario {
             let c = *rng.pick(&[128u32, 512, 4096, 65536, 262144]);
             if c >= 65536 && big_so_far >= 2 { 4096 } else { c }
         };
-        sc.threads.push(ThreadPlan { start, hash_key: rng.next_u64(), steps, stack_kb });
+        // a few threads make library calls from a thread-local destructor when they end
+        let mut exit_ops: Vec<u32> = Vec::new();
+        if rng.pct(6) {
+            for _ in 0..rng.range(1, 3) {
+                let ix = *rng.pick(&sub);
+                exit_ops.push(intern(&mut sc, ix));
+            }
+        }
+        let exit_guard_early = rng.pct(60);
+        sc.threads.push(ThreadPlan { start, hash_key: rng.next_u64(), steps, stack_kb, exit_ops, exit_guard_early });
     }
     // contention: several threads hammer the same few near-identical calls (one family), with
     // every yield site active and a high preemption rate - process-wide keyed state (hand-off
@@ -434,9 +454,9 @@ pub fn generate(g: &GenCtx, seed: u64) -> Scenario {
             let mut steps = Vec::new();
             for _ in 0..rng.range(3, 10) {
                 let op = intern(&mut sc, *rng.pick(&members));
-                steps.push(Step { op, repeat: 1, rekey: None });
+                steps.push(Step { op, repeat: 1, rekey: None, clock_jump_ms: 0 });
             }
-            sc.threads.push(ThreadPlan { start: Start::AtBegin, hash_key: rng.next_u64(), steps, stack_kb: 0 });
+            sc.threads.push(ThreadPlan { start: Start::AtBegin, hash_key: rng.next_u64(), steps, stack_kb: 0, exit_ops: Vec::new(), exit_guard_early: false });
         }
         let all_sites = if a5::verif::site::COUNT >= 32 { u32::MAX } else { (1u32 << a5::verif::site::COUNT) - 1 };
         sc.yield_mask = match rng.below(10) {
@@ -452,6 +472,16 @@ pub fn generate(g: &GenCtx, seed: u64) -> Scenario {
         sc.mode = "contention".into();
         return sc;
     }
+    // clock jumps (fault kind): the simulated clocks leap forward by 1 ms .. 30 days before some ops
+    if rng.pct(15) {
+        for t in sc.threads.iter_mut() {
+            for st in t.steps.iter_mut() {
+                if rng.pct(10) {
+                    st.clock_jump_ms = (10f64.powf(rng.uniform(0.0, 9.4))) as u64;
+                }
+            }
+        }
+    }
     // medium-haul: one op of a uniformly chosen kind repeated 30..3000 times (process- or
     // thread-wide call-count thresholds, caches that fill up)
     if rng.pct(12) {
@@ -464,7 +494,7 @@ pub fn generate(g: &GenCtx, seed: u64) -> Scenario {
                 let at = rng.below(sc.threads[t].steps.len() as u64 + 1) as usize;
                 // log-uniform in [30, 3000]
                 let repeat = (30.0 * (100.0f64).powf(rng.unit())) as u32;
-                sc.threads[t].steps.insert(at, Step { op, repeat, rekey: None });
+                sc.threads[t].steps.insert(at, Step { op, repeat, rekey: None, clock_jump_ms: 0 });
                 sc.mode = "medium_haul".into();
             }
         }
@@ -481,11 +511,11 @@ pub fn generate(g: &GenCtx, seed: u64) -> Scenario {
         let mut steps: Vec<Step> = Vec::new();
         for ix in &order {
             let op = intern(&mut sc, *ix);
-            steps.push(Step { op, repeat: 1, rekey: None });
+            steps.push(Step { op, repeat: 1, rekey: None, clock_jump_ms: 0 });
         }
         for _ in 0..rng.range(5, 40) {
             let op = intern(&mut sc, *rng.pick(&order));
-            steps.push(Step { op, repeat: 1, rekey: None });
+            steps.push(Step { op, repeat: 1, rekey: None, clock_jump_ms: 0 });
         }
         let at = rng.below(sc.threads[t].steps.len() as u64 + 1) as usize;
         let tail = sc.threads[t].steps.split_off(at);
@@ -527,7 +557,7 @@ pub fn generate(g: &GenCtx, seed: u64) -> Scenario {
                         continue;
                     }
                     let op = intern(&mut sc, ix);
-                    steps.push(Step { op, repeat: 1, rekey: None });
+                    steps.push(Step { op, repeat: 1, rekey: None, clock_jump_ms: 0 });
                     last = Some(ix);
                     if steps.len() - phase_start >= len || steps.len() >= 4000 {
                         break 'phase;
@@ -568,7 +598,7 @@ pub fn generate(g: &GenCtx, seed: u64) -> Scenario {
         let t = rng.below(sc.threads.len() as u64) as usize;
         let at = rng.below(sc.threads[t].steps.len() as u64 + 1) as usize;
         let repeat = rng.range(10_050, 12_500) as u32;
-        sc.threads[t].steps.insert(at, Step { op, repeat, rekey: None });
+        sc.threads[t].steps.insert(at, Step { op, repeat, rekey: None, clock_jump_ms: 0 });
         // long-haul runs keep yields off: 10^4 repeats x yield sites would only slow the run down
         sc.yield_mask = 0;
     }
